@@ -104,6 +104,24 @@ def _map(a, f, dtype=object):
     return f(a)
 
 
+class _UfuncProxy:
+    def __init__(self, uf, symop):
+        self.uf = uf
+        self.symop = symop
+
+    def __call__(self, a, b, *args, **kw):
+        if _has_sym(a) or _has_sym(b):
+            a2, b2 = real_np.broadcast_arrays(real_np.asarray(a, dtype=object), real_np.asarray(b, dtype=object))
+            out = real_np.empty(a2.shape, dtype=object)
+            for idx in real_np.ndindex(a2.shape):
+                out[idx] = SB(self.symop(core.lb(a2[idx]), core.lb(b2[idx])))
+            return out if out.shape else out[()]
+        return self.uf(a, b, *args, **kw)
+
+    def __getattr__(self, n):
+        return getattr(self.uf, n)
+
+
 class NPProxy:
     """thin proxy over numpy: functions that do not dispatch to methods on foreign scalars are overridden"""
     def __init__(self, **over):
@@ -183,23 +201,13 @@ class NPProxy:
         return real_np.logical_not(a)
     bitwise_not = logical_not
 
-    def logical_and(self, a, b):
-        if _has_sym(a) or _has_sym(b):
-            a2, b2 = real_np.broadcast_arrays(real_np.asarray(a, dtype=object), real_np.asarray(b, dtype=object))
-            out = real_np.empty(a2.shape, dtype=object)
-            for idx in real_np.ndindex(a2.shape):
-                out[idx] = SB(z3.And(core.lb(a2[idx]), core.lb(b2[idx])))
-            return out if out.shape else out[()]
-        return real_np.logical_and(a, b)
+    @property
+    def logical_and(self):
+        return _UfuncProxy(real_np.logical_and, lambda x, y: z3.And(x, y))
 
-    def logical_or(self, a, b):
-        if _has_sym(a) or _has_sym(b):
-            a2, b2 = real_np.broadcast_arrays(real_np.asarray(a, dtype=object), real_np.asarray(b, dtype=object))
-            out = real_np.empty(a2.shape, dtype=object)
-            for idx in real_np.ndindex(a2.shape):
-                out[idx] = SB(z3.Or(core.lb(a2[idx]), core.lb(b2[idx])))
-            return out if out.shape else out[()]
-        return real_np.logical_or(a, b)
+    @property
+    def logical_or(self):
+        return _UfuncProxy(real_np.logical_or, lambda x, y: z3.Or(x, y))
 
     def sum(self, a, *args, **kw):
         if _has_sym(a) and not args and not kw:
